@@ -6,6 +6,7 @@
 #include <string.h>
 #include <limits.h>
 #include <math.h>
+#include <stdlib.h>
 
 /* C++ exceptions (rule R9/R14): ghost flag + early return */
 int verif_thrown;
